@@ -1,0 +1,18 @@
+//go:build verif
+
+package dag
+
+// Machine-checked contracts for /verif (read as text by the VC generator; no code).
+// be32at: see hash/verif_contracts.go.
+//
+//@ func (*MutableBaseEvent).SetID
+//@   requires e != nil
+//@   modifies e.id
+//@   ensures  be32at(e.id, 0) == e.epoch && be32at(e.id, 4) == e.lamport
+//@   ensures  forall(i, 0, 24, e.id[8+i] == rID[i])
+//@
+//@ func (*MutableBaseEvent).Build
+//@   requires me != nil
+//@   ensures  fresh(result) && be32at(result.id, 0) == me.epoch && be32at(result.id, 4) == me.lamport
+//@   ensures  forall(i, 0, 24, result.id[8+i] == rID[i])
+//@   ensures  result.epoch == me.epoch && result.seq == me.seq && result.frame == me.frame && result.creator == me.creator && result.lamport == me.lamport && result.parents == me.parents
